@@ -47,8 +47,10 @@ def rel(how, clause, *regs):
 
 def fuse_program(rng, tid, sym, kind, cfg=None, dtype="float64", maxrank=4):
     rank = rng.randint(2, maxrank)
+    rich = rng.random() < 0.5   # every index with several charges: many sectors, so that fused blocks are assembled from several pieces
     x = gen.rand_array(rng, sym, rank, kind, dtype=dtype, sparse=0.6, maxc=2 if rank == 4 else 3,
-                       phases=0.4 if kind == "fermionic" else 0.0, unit_prob=0.1)
+                       phases=0.4 if kind == "fermionic" else 0.0, unit_prob=0.0 if rich else 0.1,
+                       minc=2 if rich else 1, maxd=1 if (rich and rank == 4) else 2)
     groups = rand_groups(rng, rank)
     perm, fused, nb = layout(rank, groups)
     steps = []
@@ -83,6 +85,28 @@ def fuse_program(rng, tid, sym, kind, cfg=None, dtype="float64", maxrank=4):
             steps.append({"op": "transpose", "in": ["uf"], "out": ["fback"], "args": {"axes": inverse(p2)}})
             steps.append(rel("blocks" if kind == "abelian" else "same", "C05.roundtrip.nested", "f", "fback"))
     return {"tid": tid, "inputs": {"x": x}, "steps": steps, "cfg": cfg or {}}
+
+
+def single_group_programs(seed, n, syms=gen.SYMS, tids=None):
+    """Several groups, one of them a single axis, on sparse arrays with many sectors: both
+    strategies have to assemble fused blocks with missing pieces."""
+    tids = tids or gen.Tids()
+    progs = []
+    for i in range(n):
+        rng = gen.rng_for(seed, "fuse1", i)
+        sym = syms[i % len(syms)]
+        rank = rng.randint(3, 4)
+        x = gen.rand_array(rng, sym, rank, "abelian", sparse=1.0, minc=2, maxc=2, maxd=2 if rank == 3 else 1,
+                           dtype=rng.choice(["float64", "complex64"]))
+        axes = list(range(rank))
+        rng.shuffle(axes)
+        groups = [axes[:2], axes[2:3]] + ([axes[3:4]] if rank == 4 and rng.random() < 0.5 else [])
+        rng.shuffle(groups)
+        steps = [{"op": "fuse", "in": ["x"], "out": ["f"], "args": {"groups": groups, "mode": "insert"}},
+                 {"op": "fuse", "in": ["x"], "out": ["fc"], "args": {"groups": groups, "mode": "concat"}},
+                 rel("array_equal", "C05.strategies_agree", "f", "fc")]
+        progs.append({"tid": tids(), "inputs": {"x": x}, "steps": steps})
+    return progs
 
 
 def fuse_programs(seed, n, kinds=("abelian", "fermionic"), syms=gen.SYMS, tids=None):
